@@ -96,6 +96,10 @@ type pool struct {
 	ats   []string
 	devs  []string
 	pars  []string
+	// every value handed out by the provider in this round (each add is one issuance)
+	seen   map[string]bool
+	issued int64
+	dups   []string
 }
 
 func (p *pool) add(l *[]string, v string) {
@@ -103,6 +107,14 @@ func (p *pool) add(l *[]string, v string) {
 		return
 	}
 	p.mu.Lock()
+	if p.seen == nil {
+		p.seen = map[string]bool{}
+	}
+	p.issued++
+	if p.seen[v] {
+		p.dups = append(p.dups, v)
+	}
+	p.seen[v] = true
 	*l = append(*l, v)
 	if len(*l) > 40 {
 		*l = (*l)[len(*l)-40:]
@@ -143,7 +155,8 @@ func c19stress(c *run.Ctx) {
 	keys := world.GetKeys()
 	for round := 0; round < rounds; round++ {
 		lazy := (round+c.Shard)%2 == 0
-		w := world.New(world.Opts{LazyConfig: lazy, JWTAccess: round%3 == 2})
+		jwtAT := (round+c.Shard/2)%3 == 2
+		w := world.New(world.Opts{LazyConfig: lazy, JWTAccess: jwtAT})
 		w.AddClient(world.ClientSpec{ID: "pkj", Kind: "oidc", AuthMethod: "private_key_jwt", AuthSigAlg: "RS256", JWKS: world.PublicJWKS(nil, &keys.ClientRSA[0].PublicKey), RedirectURIs: []string{"https://pkj.example/cb"},
 			GrantTypes: world.AllGrants, ResponseTypes: world.AllResponseTypes, Scopes: scopePool})
 		p := &pool{}
@@ -252,8 +265,17 @@ func c19stress(c *run.Ctx) {
 			return
 		}
 		c.Count("c19_stress_ops", ops)
+		c.Count("c19_stress_values_issued", p.issued)
+		if len(p.dups) > 0 {
+			v := p.dups[0]
+			if len(v) > 60 {
+				v = v[:30] + "..." + v[len(v)-20:]
+			}
+			c.Violate(run.Violation{Kind: "token-generated-twice", Key: fmt.Sprintf("token-generated-twice under load jwt-access-tokens=%v", jwtAT),
+				Detail: fmt.Sprintf("%d of %d values handed out in this round had been handed out before, e.g. %s", len(p.dups), p.issued, v)})
+		}
 		c.Eval(ops)
-		c.Distinct[fmt.Sprintf("stress-round lazy-config=%v jwt=%v", lazy, round%3 == 2)]++
+		c.Distinct[fmt.Sprintf("stress-round lazy-config=%v jwt=%v", lazy, jwtAT)]++
 		if round == 0 {
 			c.Sample(map[string]interface{}{"stress_round": map[string]interface{}{"goroutines": nG, "ops": ops, "lazy_config": lazy, "shared_codes": len(p.codes), "shared_refresh_tokens": len(p.rts)}})
 		}
